@@ -75,12 +75,35 @@ def make_esf(sym, process="NC", extra=None):
     return S.record("ESF", x=sym.xB, Q2=sym.Q2, process=process, info=info)
 
 
+_IN_ORDER_CALL = set()
+
+
+def _provenance(ev, fv, args, kwargs):
+    """Annotate every RSL returned by an order method with the class of the channel instance that produced it."""
+    fi = fv.finfo
+    inst = fv.bound if isinstance(fv.bound, S.ObjVal) else getattr(fv, "via", None)
+    if fi.name in ORDER_METHODS and isinstance(inst, S.ObjVal) and inst.cinfo is not None:
+        key = (id(inst), fi.name, id(fi))
+        if key in _IN_ORDER_CALL:
+            return NotImplemented
+        _IN_ORDER_CALL.add(key)
+        try:
+            r = ev.call_func(fv, list(args), dict(kwargs))
+        finally:
+            _IN_ORDER_CALL.discard(key)
+        if isinstance(r, S.ObjVal) and r.cinfo is not None and r.cinfo.name == "RSL":
+            c = inst.cinfo
+            r.attrs["_owner"] = f"{c.module.name.split('.')[-2]}.{c.module.name.split('.')[-1]}.{c.name}"
+        return r
+    return NotImplemented
+
+
 def above_threshold_hook(ev, fv, args, kwargs):
     """Fold `is_below_pair_threshold` to False: the analysed path is the one on
     which the coefficient function is actually evaluated."""
     if fv.finfo.name == "is_below_pair_threshold":
         return False
-    return NotImplemented
+    return _provenance(ev, fv, args, kwargs)
 
 
 def instantiate(ev, cinfo, sym, esf=None, nf=None):
